@@ -394,12 +394,14 @@ def r3(cx):
     for pkg in ("varlink", "varlink-cli"):
         for body in cx.mir.bodies(pkg):
             if body.promoted is not None: continue
-            ser = body.calls("serde_json::to_string")
+            ser = [t for t in body.calls("serde_json::to_string", "serde_json::to_vec") if t.callee.name in ("to_string", "to_vec")]
             wr = body.calls("=write_all")
             if not ser or not wr: continue
             cx.saw(body)
             n_w += 1
             adds = [t for t in body.calls("=add", "=push_str", "=push") if "String" in t.callee.resolved or "string" in t.callee.resolved]
+            # the byte spelling: serde_json::to_vec(..) followed by Vec::push(0) / extend_from_slice(b"\0")
+            badds = [t for t in body.calls("=push", "=extend_from_slice") if "Vec" in (t.callee.resolved + t.callee.path) and "String" not in t.callee.resolved]
             lits = []
             sl = Slice(body)
             for t in adds:
@@ -408,6 +410,16 @@ def r3(cx):
                         if k == "const" and o.cstr() is not None: lits.append(o.cstr())
                         elif k == "const" and (o.const or {}).get("chr") is not None: lits.append(o.const["chr"])
                         elif k != "const": lits.append("<non-constant>")
+            from vlib.cfg import promoted_consts
+            for t in badds:
+                for a in t.args[1:]:
+                    for k, o in sl.origins(a):
+                        if k != "const": lits.append("<non-constant>"); continue
+                        if o.cint() == 0: lits.append("\0"); continue
+                        txt = str((o.const or {}).get("str") or (o.const or {}).get("dbg") or "")
+                        pc = promoted_consts(body, o)
+                        if txt in ('b"\\0"', 'b"\\x00"') or pc == [0]: lits.append("\0")
+                        else: lits.append(txt or "<constant>")
             good = lits == ["\0"] * len(ser) and len(lits) >= 1
             cx.check(good, "C02.R3", "%s:%s:terminator" % (pkg, body.path), body.sp,
                      "serialises %d message(s) but appends %r (expected one \"\\0\" per message)" % (len(ser), lits),
